@@ -45,6 +45,9 @@ type NodeSpec struct {
 	// LookupsAlways: the lookups are repeated in every initialization callback, not only the first one
 	// (a stateless service-locator component)
 	LookupsAlways bool `json:"lookups_always,omitempty"`
+	// ProvisionalOrd: Order() answers this value until the node's first initialization callback, Ord afterwards
+	// (a participant that learns its position while it is initialised)
+	ProvisionalOrd *int `json:"provisional_ord,omitempty"`
 }
 
 func (n *NodeSpec) DisplayName() string {
@@ -156,8 +159,20 @@ func Build(sc *Scenario, opt Options) *Run {
 		n := Palette[ns.Type].New()
 		k := n.Core()
 		k.Idx, k.Name, k.Qual, k.KindV, k.Ord, k.Log, k.Hook = i, ns.Name, ns.Qual, ns.Kind, ns.Ord, r.Log, opt.Hook
+		if ns.ProvisionalOrd != nil {
+			k.Ord = *ns.ProvisionalOrd
+			final, outer := ns.Ord, k.Hook
+			k.Hook = func(kind string, who Node) {
+				if kind == "init" || kind == "aps" {
+					who.Core().Ord = final
+				}
+				if outer != nil {
+					outer(kind, who)
+				}
+			}
+		}
 		if len(ns.Lookups) > 0 {
-			lookups, outer, done, always := ns.Lookups, opt.Hook, false, ns.LookupsAlways
+			lookups, outer, done, always := ns.Lookups, k.Hook, false, ns.LookupsAlways
 			k.Hook = func(kind string, who Node) {
 				if outer != nil {
 					outer(kind, who)
